@@ -286,7 +286,7 @@ func runChild(run *ev.Run, cov ev.Coverage) {
 
 func boundsText(thorough bool) string {
 	if thorough {
-		return "W in {1,2,3}; <=5 pattern blocks (+<=1 lead block); <=2 payments per block per pair; <=3 pairs of the 8 (scope,branch) pairs; 1 spend with optional change; recoveryBatchSize 2 (overlay) everywhere and 2000 (real) on 2000+-block chains; every GetBlockHash/FilterBlocks call position of the start-up sync as interruption x {retry, restart, lock} on the A5 base patterns; PART B length<=7 incl. genesis on grid {-3,-2,0,2,3,47,48,50}h; PART C next-unfound<7, <=2 invalid children among indices 0..7"
+		return "W in {1,2,3}; <=5 pattern blocks (+<=1 lead block); <=2 payments per block per pair; <=3 pairs of the 8 (scope,branch) pairs; 1 spend with optional change; recoveryBatchSize 2 (overlay) everywhere and 2000 (real) on 2000+-block chains; every GetBlockHash/FilterBlocks call position of the start-up sync as interruption x {retry, restart, lock} on the A5 base patterns; A6/R3: asymmetric branch usage (one branch of a scope ahead of the other by W or W+1 keys, other branch 0 or 1 keys, <=5 blocks) x stop+reopen at every call position (R3: after the first 2000-block batch); PART B length<=7 incl. genesis on grid {-3,-2,0,2,3,47,48,50}h; PART C next-unfound<7, <=2 invalid children among indices 0..7"
 	}
-	return "W in {1,2,3}; <=4 pattern blocks (+<=1 lead block); <=2 payments per block per pair; <=2 pairs of the 8 (scope,branch) pairs; 1 spend with optional change; recoveryBatchSize 2 (overlay) everywhere and 2000 (real) on 2000+-block chains; every GetBlockHash/FilterBlocks call position of the start-up sync as interruption x {retry, restart, lock} on the A5 base patterns; PART B length<=6 incl. genesis on grid {-3,-2,0,2,3,47,48,50}h; PART C next-unfound<5, <=2 invalid children among indices 0..7"
+	return "W in {1,2,3}; <=4 pattern blocks (+<=1 lead block); <=2 payments per block per pair; <=2 pairs of the 8 (scope,branch) pairs; 1 spend with optional change; recoveryBatchSize 2 (overlay) everywhere and 2000 (real) on 2000+-block chains; every GetBlockHash/FilterBlocks call position of the start-up sync as interruption x {retry, restart, lock} on the A5 base patterns; A6/R3: asymmetric branch usage (one branch of a scope ahead of the other by W or W+1 keys, other branch 0 or 1 keys, <=5 blocks) x stop+reopen at every call position (R3: after the first 2000-block batch); PART B length<=6 incl. genesis on grid {-3,-2,0,2,3,47,48,50}h; PART C next-unfound<5, <=2 invalid children among indices 0..7"
 }
